@@ -991,6 +991,7 @@ def programs(tier):
     reg("map_blocks(reverse,x2)[a:b]", lambda w, E: p_slice(w, p_map_rev(w, E, source(w, E, "x", (2,))), raw_index(E, (F,))), 4)
     reg("map_blocks(reverse,x2)[i]", lambda w, E: p_slice(w, p_map_rev(w, E, source(w, E, "x", (2,))), raw_index(E, ("i",))), 3)
     reg("map_blocks(reverse,x[2,3])[[1,2,4]]", lambda w, E: _at_site(p_take(w, E, p_map_rev(w, E, source(w, E, "x", (2,), chunks=[(2, 3)])), 0, [1, 2, 4]), MAP_BLOCKS_TAKE_SITE), 3)
+    reg("map_blocks(first,x[5,7][::2][0:3])", lambda w, E: p_map_first(w, E, p_slice(w, p_slice(w, source(w, E, "x", (2,), chunks=[(5, 7)]), (slice(None, None, 2),)), (slice(0, 3),))), 3)
     reg("map_blocks(first,x3[::-1])", lambda w, E: p_map_first(w, E, p_slice(w, source(w, E, "x", (3,)), raw_index(E, REV))), 2)
     # creation with affine values: slices fold into start/step (Arange._accept_slice)
     reg("arange(start,stop,2;3 blocks)", lambda w, E: p_arange(w, E, 2, 3), 2)
